@@ -35,6 +35,7 @@ var importSwap = map[string][2]string{
 	"go.uber.org/atomic": {"atomic", "verifsim/simuatomic"},
 	"hash/maphash":       {"maphash", "verifsim/simmaphash"},
 	"runtime":            {"runtime", "verifsim/simruntime"},
+	"time":               {"time", "verifsim/simtime"},
 }
 
 // packages (relative dirs) in which "net" is swapped as well
